@@ -117,7 +117,7 @@ def gen_history(seed, cno, tier, recovery=False):
 def phase_gen(out, seed, tier, kv):
     d = os.path.join(out, "cases")
     os.makedirs(d, exist_ok=True)
-    n = 1500 if tier == "quick" else 40000
+    n = 1500 if tier == "quick" else 20000
     with open(os.path.join(d, "cases.jsonl"), "w") as f:
         for c in range(n):
             recovery = (c % 5 == 4)
